@@ -288,3 +288,73 @@ get_parent = Unit(
 )
 get_parent.check_frame = True
 UNITS = [init, getattr_parent, getattr_root, get_, contains, getitem, inlocal, setdefault, update, delattrs, clone, reparent, get_parent]
+
+
+# ---- the two consumers in ast.AstNode that fill a format field unless it was set explicitly (C14: "a format field
+# applies to the scope where it is set"): eval_template, set_fmt_default -------------------------------------------------
+# util.wformat(template, fmt) is abstract: a function of the template text and of the identity + content of the scope it
+# formats with (WFMTS); it does not write the scope (assumed: string.Formatter.vformat only reads).
+WFMTS = z3.Function("spec_wformat_scope", StrS, IntS, StrS)
+getitem.result = "py"
+
+
+def _wformat_scope(ex, st, args, kw, node):
+    t = args[0]
+    if isinstance(t, VPy):
+        ex.safety(st, "AttributeError", PyVal.is_pstr(t.e), node, "template is not a string")
+        te = PyVal.ps(t.e)
+    else:
+        te = ex.want_str(t, st, node)
+    ex.safety(st, "SystemExit", z3.Bool(fresh_name("fmt_ok")), node, "wformat may stop with 'Error with template'")
+    sc = st.heap[args[1].oid]
+    return VStr(WFMTS(te, sc.f["gid"].e))
+
+
+def _node(fmt_alias):
+    sd = lambda: ("obj", "ScopeD", {"__parent": ("opt", _PARENT), "__hidden": "int", "__dict__": "dict[py]", "__class__": _CLASS,
+                                    "gid": "int"})
+    p = {"self": ("obj", "AstNode", {"fmtdict": sd(), "options": sd()}), "name": "str"}
+    return p, sd
+
+
+def _consumer(kind, shape):
+    p, sd = _node(shape)
+    if kind == "eval_template":
+        p["tname"] = "str"
+    else:
+        p["value"] = "py"
+    p["fmt"] = "none" if shape == "own" else sd()
+    F = "self.fmtdict" if shape == "own" else "fmt"
+    OF = "old(self).fmtdict" if shape == "own" else "old(fmt)"
+    other = [] if shape == "own" else [
+        "all(x in self.fmtdict.__dict__ and self.fmtdict.__dict__[x] == old(self).fmtdict.__dict__[x] for x in old(self).fmtdict.__dict__)",
+        "all(x in old(self).fmtdict.__dict__ for x in self.fmtdict.__dict__)"]
+    ens = [
+        # an explicitly set field wins: nothing at all is written
+        "all(x in %s.__dict__ and %s.__dict__[x] == %s.__dict__[x] for x in %s.__dict__)" % (F, F, OF, OF),
+        "all(x == name or x in %s.__dict__ for x in %s.__dict__)" % (OF, F),
+        "name in %s.__dict__" % F,
+    ] + other
+    if kind == "eval_template":
+        tn = "tn0"            # ghost: the option name, from the entry values (the body re-binds `tname`)
+        ens.append(
+            # otherwise: the option template found by the CHAIN lookup of the node's own options, formatted with this scope
+            "implies(not (name in %(OF)s.__dict__), %(F)s.__dict__[name] == WFMTS("
+            "(self.options.__dict__[%(tn)s] if %(tn)s in self.options.__dict__ else PGET(self.options.__parent.gid, %(tn)s)), "
+            "%(F)s.gid))" % {"F": F, "OF": OF, "tn": tn})
+    else:
+        ens.append("implies(not (name in %s.__dict__), %s.__dict__[name] == value)" % (OF, F))
+    u = _unit("AstNode.%s[%s]" % (kind, "own fmtdict" if shape == "own" else "fmt given"), "X", p,
+              modifies=["%s.__dict__" % F], raises=["AttributeError", "SystemExit"], ensures=ens,
+              callee_units={("ScopeD", "inlocal"): inlocal, ("ScopeD", "__getitem__"): getitem})
+    u.target = "shroud/ast.py::AstNode." + kind
+    if kind == "eval_template":
+        u.init = "tn0 = name + tname + '_template'\n"
+    u.global_callees["util.wformat"] = VFun("util.wformat[assumed: reads the scope, result a function of template and scope]", _wformat_scope)
+    u.spec_funcs["WFMTS"] = WFMTS
+    u.pure_callees = ["inlocal", "__getitem__", "util.wformat"]
+    return u
+
+
+CONSUMERS = [_consumer(k, s) for k in ("eval_template", "set_fmt_default") for s in ("own", "given")]
+UNITS = UNITS + CONSUMERS
